@@ -363,6 +363,35 @@ pub fn run(tier: &str) -> i32 {
                     }
                 }
             }
+            // the decoder saved and restored (serde) with 1-3 trailer bytes already read: the verdict is
+            // about all four bytes
+            #[cfg(not(feature = "simd"))]
+            if !big && d.len() == n {
+                for cut in n - 3..n {
+                    acc.0 += 1;
+                    let r = guarded(|| {
+                        use miniz_oxide::inflate::core::{decompress, DecompressorOxide};
+                        let mut dec = Box::new(DecompressorOxide::new());
+                        let mut out = vec![0u8; *olen + 64];
+                        let (st1, c1, w1) = decompress(&mut dec, &d[..cut], &mut out, 0, F_ZLIB | F_FLAT | F_MORE);
+                        let bytes = rmp_serde::to_vec(&*dec).map_err(|e| e.to_string())?;
+                        let mut dec2: DecompressorOxide = rmp_serde::from_slice(&bytes).map_err(|e| e.to_string())?;
+                        let (st2, _, _) = decompress(&mut dec2, &d[c1..], &mut out, w1, F_ZLIB | F_FLAT);
+                        Ok::<_, String>((st1, st2))
+                    });
+                    let rp = json!({"kind": "trailer-serde", "stream_hex": hex(d), "desc": s.desc, "good": good, "cut": cut});
+                    match r {
+                        Err(p) => rep.violation("C09/trailer/panic", format!("panic {}", p), rp),
+                        Ok(Err(e)) => rep.violation("C09/trailer/serde-error", e, rp),
+                        Ok(Ok((_, st2))) => {
+                            let want = if *good { TINFLStatus::Done } else { TINFLStatus::Adler32Mismatch };
+                            if st2 != want {
+                                rep.violation("C09/trailer/serde-restored-decoder", format!("decoder serialised and restored {} bytes before the end of the trailer answered {} instead of {} [{}]", n - cut, status_name(st2), status_name(want), s.desc), rp);
+                            }
+                        }
+                    }
+                }
+            }
             // a Finish request made too early (part of the stream still to come), answered Buf, and
             // repeated with the rest: whatever the wrapper makes of the retry, it may not report a
             // checksum error for the correct trailer nor the end of the stream for a wrong one
